@@ -136,6 +136,9 @@ class Adapter(EnvAdapter):
             for rew in ("dense", "sparse"):
                 out.append(_c(f"z{n}_c{cap}_d{dem}_{rew}", "lattice0", n, cap, dem, rew, 20 if n <= 6 else 6, policies=POL5,
                               probe_every=1 if n <= 6 else 2))
+        out += [_c("u1_c3_d3_dense", "uniform", 1, 3, 3, "dense", 12, policies=POL5), _c("u2_c4_d3_sparse", "uniform", 2, 4, 3, "sparse", 12, policies=POL5),
+                _c("l1_c2_d2_sparse", "lattice", 1, 2, 2, "sparse", 8, policies=POL5),
+                _c("u130_c40_d9_dense", "uniform", 130, 40, 9, "dense", 2, policies=["nearest", "masked"], probe_every=20, probe_cap=40)]
         for c in out:       # the registered default is built by the library's own no-argument constructor
             if c["id"] == "u20_c30_d10_dense":
                 c["default_ctor"] = True
